@@ -5,7 +5,8 @@
 EXTENDS Naturals, Sequences, TLC, Json, PersistTypes
 
 CONSTANTS MaxData,     \* data seeds 1..MaxData
-          MaxChain     \* longest chain of formats
+          MaxChain,    \* longest chain of formats
+          MaxWideChain \* longest chain of formats for the wide cases
 
 VARIABLE case
 
@@ -19,11 +20,14 @@ FmtSeqs == UNION {{s \in Chains(n) : n <= 2 \/ Alternating(s)} : n \in 1..MaxCha
 Init ==
   \E i \in 1..Len(Catalogue) :
   LET t == Catalogue[i] IN
-  \E v \in 0..(t.nvar - 1), ft \in (IF t.gen THEN {"f32", "f64"} ELSE {"f64"}), fm \in FmtSeqs, d \in 1..MaxData :
+  \E v \in 0..(t.nvar - 1), ft \in (IF t.gen THEN {"f32", "f64"} ELSE {"f64"}), fm \in FmtSeqs, d \in 1..MaxData,
+     w \in (IF t.wide THEN {0, 1} ELSE {0}) :
     \* data seeds only matter where something is fitted or drawn
     /\ (t.role = "plain" => d = 1)
+    \* wide cases (8..12 features, all calling forms): chains up to MaxWideChain
+    /\ (w = 1 => Len(fm) <= MaxWideChain)
     /\ case = [kind |-> t.role,
-               inp |-> [type |-> t.name, ft |-> ft, var |-> v, data |-> d, fmts |-> fm]]
+               inp |-> [type |-> t.name, ft |-> ft, var |-> v, data |-> d, wide |-> w, fmts |-> fm]]
 
 Next == UNCHANGED case
 Emit == PrintT("CASE " \o ToJson(case))
